@@ -131,6 +131,44 @@ func extractScriptRows(c *Ctx, pa *provAnalysis, pk *Packager) []scriptRow {
 						}
 					}
 				}
+				// the element is the result of a constructor call: its constant
+				// string argument names the slot, a script-path argument feeds it,
+				// the constants the constructor stores accompany the row
+				for _, r2 := range *ia.Referrers() {
+					st, ok := r2.(*ssa.Store)
+					if !ok || st.Addr != ssa.Value(ia) {
+						continue
+					}
+					call, ok := st.Val.(*ssa.Call)
+					if !ok {
+						continue
+					}
+					sc := call.Call.StaticCallee()
+					if sc == nil || sc.Blocks == nil || !c.isModuleFunc(sc) {
+						continue
+					}
+					for _, a := range call.Call.Args {
+						if k, ok := a.(*ssa.Const); ok && k.Value != nil && k.Value.Kind().String() == "String" {
+							if constString(k) != "" {
+								slots = append(slots, constString(k))
+							}
+							continue
+						}
+						p := pa.Of(a)
+						if len(scriptAtoms(p)) > 0 {
+							src.add(p)
+						}
+					}
+					forEachInstr(sc, func(i2 ssa.Instruction) {
+						if s2, ok := i2.(*ssa.Store); ok {
+							if _, isField := s2.Addr.(*ssa.FieldAddr); isField {
+								if _, isConst := s2.Val.(*ssa.Const); isConst {
+									consts = append(consts, pa.Of(s2.Val).consts()...)
+								}
+							}
+						}
+					})
+				}
 				var fieldRefs []ssa.Instruction
 				for _, b := range bases {
 					fieldRefs = append(fieldRefs, *b.Referrers()...)
